@@ -133,6 +133,24 @@ func (s *server) cpuTicks() (int64, bool) {
 	return ut + st, true
 }
 
+// rssKB returns the resident set size of the server process in KiB (VmRSS of /proc/<pid>/status).
+func (s *server) rssKB() (int64, bool) {
+	b, err := os.ReadFile(fmt.Sprintf("/proc/%d/status", s.cmd.Process.Pid))
+	if err != nil {
+		return 0, false
+	}
+	for _, ln := range strings.Split(string(b), "\n") {
+		if strings.HasPrefix(ln, "VmRSS:") {
+			f := strings.Fields(ln)
+			if len(f) >= 2 {
+				v, e := strconv.ParseInt(f[1], 10, 64)
+				return v, e == nil
+			}
+		}
+	}
+	return 0, false
+}
+
 type httpResult struct {
 	Status int
 	Header http.Header
